@@ -144,6 +144,10 @@ def crystal_descs(draw, sgs=None, max_orbits=3, force_letters=None, anchor=None,
         orbits.append({"letter": l, "q": [gc.generic(draw, k0 + j, 0.05, 0.95) for j in range(3)], "Z": z})
     raw = [gc.generic(draw, 17 + j + 24 * salt, 3.5, 9.0) for j in range(3)] + [gc.generic(draw, 20 + j + 24 * salt, 75.0, 105.0) for j in range(3)]
     d = {"sg": sg, "orbits": orbits, "raw": raw}
+    if draw(st.integers(0, 4)) == 0:
+        # metric pseudo-symmetry: the free angles of the crystal system are 90 deg +- a little, the free lengths nearly equal
+        # (beta = 90.2 deg monoclinic, nearly tetragonal orthorhombic ...) while the atoms keep the low symmetry
+        d["pseudo"] = {"dang": draw(st.sampled_from([0.05, 0.2, 0.6, 0.003, -0.05, -0.3])), "dlen": draw(st.sampled_from([1e-3, 1e-4, 5e-3, -1e-3]))}
     if spgref.centring(sg) != "P" and draw(st.integers(0, 2)) == 0:
         d["prim"] = True      # describe the crystal in a primitive cell of its centred lattice (supercells of it are then
     return d                  # smaller than the conventional cell)
@@ -229,7 +233,11 @@ def build_standard(desc, primitive="auto", retry=0):
     primitive cell of it when that is needed to stay below 120 atoms)."""
     sg = desc["sg"]
     R, t = spgref.operations(sg)
-    cell = gc.cellpar_to_cell(*spgref.lattice_cellpar(sg, desc["raw"]))
+    raw = list(desc["raw"])
+    if desc.get("pseudo"):
+        da, dl = float(desc["pseudo"]["dang"]), float(desc["pseudo"]["dlen"])
+        raw = [raw[0], raw[0] * (1.0 + dl), raw[0] * (1.0 - 2.0 * dl), 90.0 + da, 90.0 + 0.7 * da if spgref.crystal_system(sg) == "monoclinic" else 90.0 - 0.7 * da, 90.0 + 1.3 * da]
+    cell = gc.cellpar_to_cell(*spgref.lattice_cellpar(sg, raw))
     pts, nums = [], []
     for k, o in enumerate(desc["orbits"]):
         p = point_on(sg, o["letter"], _shifted_q(o["q"], k, retry))
@@ -348,10 +356,15 @@ def spglib_group(cell, pos_or_frac, nums, symprec, cartesian=True):
     return spglib.get_symmetry_dataset((cell, frac, nums), symprec=symprec)
 
 
-def well_conditioned(cell, pos, nums):
-    """spglib reports the same group at 1e-4 and 1e-2 (a 100x window around MatID's 1e-3).  Returns dataset at 1e-4 or None."""
-    d1 = spglib_group(cell, pos, nums, 1e-4)
-    d2 = spglib_group(cell, pos, nums, 1e-2)
+def well_conditioned(cell, pos, nums, scale=1.0, also=()):
+    """spglib reports the same group at 1e-4 and 1e-2 (a 100x window around MatID's 1e-3) - both times the crystal's length
+    scale - and at every tolerance listed in `also`.  Returns dataset at the tight tolerance or None."""
+    d1 = spglib_group(cell, pos, nums, 1e-4 * scale)
+    d2 = spglib_group(cell, pos, nums, 1e-2 * scale)
     if d1 is None or d2 is None or d1.number != d2.number:
         return None
+    for t in also:
+        d3 = spglib_group(cell, pos, nums, t)
+        if d3 is None or d3.number != d1.number:
+            return None
     return d1
